@@ -389,15 +389,26 @@ def coq_eval(ctx, files):
     samples = []
     for f in tree_files[:nsamp]:
         cmds = read_cmds(f)
-        keep, tids = [], []
+        # whole histories, in file order, up to maxops operations; in the quick tier a history that is long or
+        # carries very long keys (thousands of keys below nested wide nodes, 4 KiB sort keys) is left to the
+        # thorough tier: vm_compute on it takes most of a minute
+        hist, order = {}, []
         for c in cmds:
             t = c.split()
             if len(t) > 1 and t[0] == "NEW":
-                if len(keep) > maxops:
-                    break
-                tids.append(t[1])
-            if len(t) > 1 and t[1] in tids:
-                keep.append(c)
+                order.append(t[1])
+                hist[t[1]] = []
+            if len(t) > 1 and t[1] in hist:
+                hist[t[1]].append(c)
+        keep, nk = [], 0
+        for tid in order:
+            h = hist[tid]
+            if nk > maxops:
+                break
+            if ctx.tier == "quick" and (len(h) > 350 or sum(len(c) for c in h) > 60000):
+                continue
+            keep += h
+            nk += len(h)
         p = os.path.join(ctx.work, "keval_%s.cmds" % os.path.basename(f)[:-5].replace("-", "_"))
         open(p, "w").write("\n".join(keep) + "\n")
         samples.append(p)
